@@ -25,6 +25,39 @@ func (c *Ctx) ruleHandle() {
 			}
 		}
 	}
+	// Free is complete: wherever it returns with the instance initialised and its read-only flag
+	// tested false, the handle has been zeroed (no other condition - a mutex, a kind - keeps it alive)
+	for _, name := range []string{"(*Stack).Free", "(*Condition).Free"} {
+		fn := c.p.ByName[name]
+		if fn == nil {
+			continue
+		}
+		fa := c.eng.analyze(fn, nil)
+		ra := c.newRO()
+		hkey := c.eng.tt.mk(Term{K: "FA", A: c.eng.tt.mk(Term{K: "P", N: 0, S: fn.Params[0].Name()}), N: 0}).key
+		nLive, bad := 0, false
+		for _, rs := range fa.rets {
+			if rs.st.dead {
+				continue
+			}
+			if v, known := ra.roTestValue(fa, rs.st, 0); !known || v {
+				continue
+			}
+			nLive++
+			cell, ok := rs.st.heap[hkey]
+			if !ok || !isNilConst(cell.val) {
+				bad = true
+			}
+		}
+		switch {
+		case nLive == 0:
+			rep.bad("R-HANDLE", name, "frees when allowed", c.p.pos(fn.Pos()), "no return path with the read-only flag tested false")
+		case bad:
+			rep.bad("R-HANDLE", name, "frees when allowed", c.p.pos(fn.Pos()), "Free can return with the read-only flag tested false and the handle still alive (some other condition keeps the instance from being released)")
+		default:
+			rep.ok("R-HANDLE", name, "frees when allowed", c.p.pos(fn.Pos()), fmt.Sprintf("on each of the %d return paths with the read-only flag tested false the handle holds nil", nLive))
+		}
+	}
 	for n := range want {
 		if got[n] {
 			rep.ok("R-HANDLE", n, "pointer receiver", "?", "one of the four methods allowed to write the handle")
